@@ -28,6 +28,7 @@ func checkC01(c *Ctx, r *Report) {
 	// packed lookup that differs from the dense table (C05) makes the driver perform reductions that are no derivation
 	includePrereq(c, r, "C01.e", checkC09)
 	includePrereq(c, r, "C01.e", checkC05)
+	c01StartSymbolFlow(c, r, "C01.c")
 	// the states on the stack must be those this parse pushed (nested parses through PushContex/PopContex)
 	c15FreshStackAll(r, "C01.e←C15.c", c.GetStaged())
 	// a lexer code may select a terminal's column only: a code translated to a nonterminal's column reads a goto
